@@ -45,6 +45,12 @@ def spec (d : Driver.Daser.DState) (op : String) (obs : String) : String :=
     | .bad => "specfail C34/unparsed"
     | .noop => if obs == "noop" then "specok" else "specfail C34/acted-on-noop"
     | .rejected => if obs == "storeerr" then "specok" else "specfail C34/acted-on-noop"
+    | .badAns _ _ =>
+      match Driver.Daser.parseToks obs with
+      | none => "specfail C34/unparsed"
+      | some toks =>
+        if specBadAnswer (view34 s) toks then "specok"
+        else "specfail C34/after-bad-answer the worker went on sampling (or marked a block) after an answer that is neither a sample nor a timeout"
     | .ev e =>
       match Driver.Daser.parseToks obs with
       | none => if obs == "panic" then "specfail C34/panic the harness panicked" else "specfail C34/unparsed"
@@ -54,6 +60,8 @@ def spec (d : Driver.Daser.DState) (op : String) (obs : String) : String :=
           let v0 := applyEv (view34 s) e (toks == [Tok.storeErr])
           match firstBad v0 toks with
           | some (.metaUpd h _) => "specfail " ++ whyStart (viewAt v0 toks) h
+          | some (.started h _ _) => "specfail " ++ whyStart (viewAt v0 toks) h
+          | some (.req h _) => "specfail " ++ whyStart (viewAt v0 toks) h
           | _ => "specfail C34/other"
 
 def handler : Driver.Handler Driver.Daser.DState :=
